@@ -4,3 +4,4 @@ import FlVerif.Props.C05
 import FlVerif.Props.C12
 import FlVerif.Props.C20
 import FlVerif.Props.C18
+import FlVerif.Props.C01
